@@ -22,6 +22,7 @@ LEVEL_TEXT = ('static: anchoring/rewriting table of the pattern matcher, snapsho
 LEVEL_NOTE = '`*` crossing `/` follows sclang and is not alarmed; regex semantics trusted'
 LEVEL_TEXT_ADD = ' Also: position census on the per-path lists, re-check in every registry, malformed incoming patterns match nothing, unknown type tags end the parse. Three dispatch-order facts are known findings.'
 LEVEL_TEXT_ADD += ' Rounds e-f: removal as an order-preserving filter accepted by the census; truncated floats and star backtracking are known findings.'
+LEVEL_TEXT_ADD += ' Round i: free() reaches disable() under no condition but the responder being enabled.'
 LEVEL_TEXT = (globals().get('LEVEL_TEXT') or EXPLANATION) + LEVEL_TEXT_ADD
 TECHNIQUE = 'static analysis: callback-loop snapshot rule, registry effect summaries, wire-data bounds (taint) rule, regex-table check'
 
